@@ -45,7 +45,9 @@ type replayParam struct {
 	Recv bool
 }
 
-const replaySliceMax = 2048
+const replaySliceMax = 4096
+
+var replayTimeout = "20s"
 
 // modelValue parses an SMT-LIB value into a Go literal string for the given sort.
 func parseModelInt(s string) (*big.Int, bool) {
@@ -120,7 +122,7 @@ func (m *modelEval) values(ts []*Term, pin []*Term) ([]string, bool) {
 			continue
 		}
 		for _, sp := range solvers[:2] {
-			r := runOne(contextBackground(), sp, mode, script, 30*time.Second)
+			r := runOne(contextBackground(), sp, mode, script, 10*time.Second)
 			if r.Status == "sat" && len(r.Values) == len(ts) {
 				return r.Values, true
 			}
@@ -395,7 +397,7 @@ func runReplayTest(pkgDir, pkgName, body string, imports map[string]bool, withTa
 	ob, _ := json.Marshal(ov)
 	of := filepath.Join(dir, "ov.json")
 	os.WriteFile(of, ob, 0o644)
-	args := []string{"test", "-overlay", of, "-vet=off", "-count=1", "-timeout", "60s", "-run", "^TestGovcReplay$", "-v"}
+	args := []string{"test", "-overlay", of, "-vet=off", "-count=1", "-timeout", replayTimeout, "-run", "^TestGovcReplay$", "-v"}
 	if withTag {
 		args = append(args, "-tags", "verif")
 	}
@@ -437,11 +439,38 @@ func tryReplay(vc *VC, o *Obligation, rep map[string]any) (confirmed bool) {
 		rep["replay"] = "no replay information for this kind of obligation"
 		return false
 	}
-	facts := append(strConstFacts(), o.Facts...)
-	me := &modelEval{facts: facts, goal: o.Goal}
-	// collect scalar terms needed: two rounds (headers first, then contents) are folded into one by asking lazily
+	// candidate inputs come from a model of the quantifier-free facts (the replay on the real code is the judge)
+	var facts []*Term
+	for _, f := range append(strConstFacts(), o.Facts...) {
+		if _, _, _, q := featureScan([]*Term{f}); !q {
+			facts = append(facts, f)
+		}
+	}
+	goal := o.Goal
+	if _, _, _, q := featureScan([]*Term{goal}); q {
+		goal = tFalse
+	}
+	me := &modelEval{facts: facts, goal: goal}
+	// Model values are fetched in batched rounds: a dry run of the input builder records which terms it needs,
+	// one solver call fetches them all (pinning earlier answers so that all rounds talk about one model).
 	known := map[*Term]string{}
 	var pins []*Term
+	var missing []*Term
+	missingSet := map[*Term]bool{}
+	// prefer small inputs: slices of at most 256 elements if such a model exists
+	var small []*Term
+	for _, p := range ri.Params {
+		for path, t := range p.V.L {
+			if strings.HasSuffix(path, ".len") || strings.HasSuffix(path, ".cap") {
+				small = append(small, mkCmp("le", t, mkInt(t.Sort, 256)))
+			}
+		}
+	}
+	if len(small) > 0 {
+		if _, ok := me.values([]*Term{tTrue}, small); ok {
+			pins = append(pins, small...)
+		}
+	}
 	get := func(t *Term) (string, bool) {
 		if t.isConst() {
 			switch t.Sort.K {
@@ -456,39 +485,78 @@ func tryReplay(vc *VC, o *Obligation, rep map[string]any) (confirmed bool) {
 		if v, ok := known[t]; ok {
 			return v, true
 		}
-		vals, ok := me.values([]*Term{t}, pins)
+		if !missingSet[t] {
+			missingSet[t] = true
+			missing = append(missing, t)
+		}
+		// placeholder for the dry run
+		switch t.Sort.K {
+		case SBool:
+			return "false", true
+		case SFP:
+			return "(fp #b0 #b00000000000 #b0000000000000000000000000000000000000000000000000000)", true
+		}
+		return "0", true
+	}
+	fetch := func() bool {
+		if len(missing) == 0 {
+			return true
+		}
+		vals, ok := me.values(missing, pins)
 		if !ok {
-			return "", false
+			return false
 		}
-		known[t] = vals[0]
-		// pin the value so that later queries stay within the same model
-		if t.Sort.K == SGoInt || t.Sort.K == SMath {
-			if bi, ok := parseModelInt(vals[0]); ok {
-				if t.Sort.K == SGoInt {
-					bi = wrapBig(bi, t.Sort)
+		for i, t := range missing {
+			known[t] = vals[i]
+			if t.Sort.K == SGoInt || t.Sort.K == SMath {
+				if bi, ok := parseModelInt(vals[i]); ok {
+					if t.Sort.K == SGoInt {
+						bi = wrapBig(bi, t.Sort)
+					}
+					pins = append(pins, mkEq(t, mkIntBig(t.Sort, bi)))
 				}
-				pins = append(pins, mkEq(t, mkIntBig(t.Sort, bi)))
+			} else if t.Sort.K == SBool {
+				pins = append(pins, mkEq(t, mkBool(strings.TrimSpace(vals[i]) == "true")))
 			}
-		} else if t.Sort.K == SBool {
-			pins = append(pins, mkEq(t, mkBool(strings.TrimSpace(vals[0]) == "true")))
 		}
-		return vals[0], true
+		missing = nil
+		missingSet = map[*Term]bool{}
+		return true
 	}
 	imports := map[string]bool{}
 	if ri.Lemma != nil {
-		return replayLemma(vc, o, ri, rep, get, imports)
+		return replayLemma(vc, o, ri, rep, get, imports, func() bool {
+			if len(missing) == 0 {
+				return true
+			}
+			fetch()
+			return false
+		})
 	}
+	hang := strings.HasPrefix(o.Kind, "variant")
 	fi := ri.Fn
-	b := &litBuilder{vc: vc, self: fi.Pkg.Types, imports: imports, get: get, ok: true, objs: map[string]string{}}
+	var b *litBuilder
 	var args []string
 	recv := ""
-	for _, p := range ri.Params {
-		b.entry = p.Heap
-		l := b.lit(p.V)
-		if p.Recv {
-			recv = l
-		} else {
-			args = append(args, l)
+	for round := 0; round < 8; round++ {
+		b = &litBuilder{vc: vc, self: fi.Pkg.Types, imports: imports, get: get, ok: true, objs: map[string]string{}}
+		args = nil
+		recv = ""
+		for _, p := range ri.Params {
+			b.entry = p.Heap
+			l := b.lit(p.V)
+			if p.Recv {
+				recv = l
+			} else {
+				args = append(args, l)
+			}
+		}
+		if len(missing) == 0 {
+			break
+		}
+		if !fetch() {
+			rep["replay"] = "the solver did not return model values for the inputs"
+			return false
 		}
 	}
 	if !b.ok {
@@ -546,12 +614,16 @@ func tryReplay(vc *VC, o *Obligation, rep map[string]any) (confirmed bool) {
 	out, err := runReplayTest(filepath.Dir(vc.fset.Position(fi.Decl.Pos()).Filename), fi.Pkg.Types.Name(), body.String(), imports, strings.HasSuffix(vc.fset.Position(fi.Decl.Pos()).Filename, "contracts_verif.go"))
 	rep["replay_test"] = out
 	out = replayOutput(out)
-	if err != nil {
-		rep["replay"] = "replay run failed: " + err.Error()
-		if ri.Hang {
-			rep["replay"] = "real code did not terminate within the replay timeout (hang reproduced)"
+	if hang {
+		if strings.Contains(out, "test timed out") || err != nil {
+			rep["replay"] = "real code did not return within the replay timeout on the model's input (hang reproduced)"
 			return true
 		}
+		rep["replay"] = "real code returned on the model's input (non-termination not reproduced)"
+		return false
+	}
+	if err != nil {
+		rep["replay"] = "replay run failed: " + err.Error()
 		return false
 	}
 	panicked := strings.Contains(out, "GOVC-PANIC") || strings.Contains(out, "panic:")
@@ -580,6 +652,10 @@ func tryReplay(vc *VC, o *Obligation, rep map[string]any) (confirmed bool) {
 			obs[i] = f[2]
 		}
 	}
+	for _, t := range outTerms {
+		get(t)
+	}
+	fetch()
 	var diffs []string
 	for i, t := range outTerms {
 		pv, ok := get(t)
@@ -614,7 +690,7 @@ func tryReplay(vc *VC, o *Obligation, rep map[string]any) (confirmed bool) {
 }
 
 // replayLemma: the ensures expressions are Go expressions over the real functions; evaluate them on the model's inputs.
-func replayLemma(vc *VC, o *Obligation, ri *ReplayInfo, rep map[string]any, get func(*Term) (string, bool), imports map[string]bool) bool {
+func replayLemma(vc *VC, o *Obligation, ri *ReplayInfo, rep map[string]any, get func(*Term) (string, bool), imports map[string]bool, fetchFn func() bool) bool {
 	l := ri.Lemma
 	p := vc.pkgs[l.Pkg]
 	for _, e := range l.Ensures {
@@ -623,14 +699,21 @@ func replayLemma(vc *VC, o *Obligation, ri *ReplayInfo, rep map[string]any, get 
 			return false
 		}
 	}
-	b := &litBuilder{vc: vc, self: p.Types, imports: imports, get: get, ok: true, objs: map[string]string{}}
+	var b *litBuilder
+	var decls []string
+	for round := 0; round < 8; round++ {
+		b = &litBuilder{vc: vc, self: p.Types, imports: imports, get: get, ok: true, objs: map[string]string{}}
+		decls = nil
+		for _, rp := range ri.Params {
+			b.entry = rp.Heap
+			decls = append(decls, fmt.Sprintf("\t%s := %s\n\t_ = %s\n", rp.Name, b.lit(rp.V), rp.Name))
+		}
+		if fetchFn == nil || fetchFn() {
+			break
+		}
+	}
 	var body strings.Builder
 	body.WriteString("func TestGovcReplay(govcT *testing.T) {\n")
-	var decls []string
-	for _, rp := range ri.Params {
-		b.entry = rp.Heap
-		decls = append(decls, fmt.Sprintf("\t%s := %s\n\t_ = %s\n", rp.Name, b.lit(rp.V), rp.Name))
-	}
 	if !b.ok {
 		rep["replay"] = "inputs cannot be constructed for replay: " + b.why
 		return false
